@@ -75,7 +75,7 @@ impl Property for C03 {
         }
     }
     fn required_labels(&self, _tier: Tier) -> Vec<&'static str> {
-        vec!["nontrivial", "ancestors>30", "kind-with-zero-records", "term-linked-to-all-records", "rec-without-terms"]
+        vec!["nontrivial", "ancestors>30", "parents>30", "records>255", "kind-with-zero-records", "term-linked-to-all-records", "rec-without-terms"]
     }
     fn run_generated(&self, tier: Tier, seed: u64, n: u64, stats: &mut Stats) -> Option<(Value, Failure)> {
         let max = if tier == Tier::Quick { 34 } else { 90 };
